@@ -146,6 +146,18 @@ func c16Lines(maxNodes int) []c16Line {
 			c16Line{"---@vararg " + t, "vararg", []string{t}},
 		)
 	}
+	// names that are also words of the annotation language (the documentation allows any identifier as a name)
+	// ("public"/"protected"/"private" directly behind ---@field and "const" directly behind ---@param are modifiers there)
+	for _, nm := range []string{"enum", "const", "fun", "table", "class", "type", "field", "alias", "generic", "end", "start"} {
+		out = append(out,
+			c16Line{"---@field " + nm + " number", "field", []string{"number"}},
+			c16Line{"---@field public " + nm + " string", "field", []string{"string"}},
+			c16Line{"---@type fun(" + nm + ": number): string", "type", []string{"fun(" + nm + ": number): string"}},
+		)
+		if nm != "const" {
+			out = append(out, c16Line{"---@param " + nm + " People", "param", []string{"People"}})
+		}
+	}
 	small := append(append([]string{}, c16Types(1)...), c16Types(2)...)
 	for _, t := range small {
 		for _, u := range small {
